@@ -619,6 +619,6 @@ func TestAlgebraRandom(t *testing.T) {
 		Name: "algebra-random",
 		Rule: "1..4 masks (occasionally nil) of 0..6 paths drawn from a shared pool with planted prefixes, extensions and look-alike siblings (ab / a.b / a.bx / a.b-); segments from a small alphabet, from real field names of corpus messages, or odd (empty segments, bytes below '.', quoted map keys); Normalize of each mask and Union/Intersect of all of them vs the coverage model. non-trivial = a strict prefix pair, >= 3 distinct paths and (for several masks) >= 2 non-empty masks",
 		Draw: drawAlg, Check: checkAlg, NonTrivial: algNonTrivial, Classes: algClasses,
-		Quick: 40000, Thorough: 600000,
+		Quick: 40000, Thorough: 400000,
 	})
 }
